@@ -32,8 +32,11 @@ T = {
  "C12": ("property-based testing (byte-stream PBT, planted common factors, refint fraction oracle compared as a pair) + libFuzzer in thorough",
          "Generated-input search over mpq arithmetic (add/sub/mul/div/inv/neg/abs/mul_2exp/div_2exp, every alias pattern), canonicalize and the exact conversions (set_d/set_f/set_z/set_si/set_ui): canonical operands with planted common factors between denominators and cross terms so every gcd branch is taken; each result must equal the refint-reduced exact fraction as a pair (positive denominator, coprime, 0/1). Both the inline functions of mpir.h and the out-of-line library copies are exercised. Exploration with an exact executable oracle.",
          "DESIGN.md section 5 C12"),
+ "C20": ("generated-program differential testing (random well-typed C++ expression programs vs explicit C calls, tree-level shrinking)",
+         "Generated programs: a generator emits translation units of random well-typed expression trees over mpz_class/mpq_class/mpf_class and built-in operands (assignment targets occurring inside the tree, compound assignments, comparisons, named functions, conversions, stream I/O) together with the reference evaluation of every node into its own temporary with the documented C function; programs are compiled against the tree's mpirxx.h and cxx/*.cc (ASan build) and run on run-time value tuples; any mismatch is shrunk at tree level to a one-function replay program. Exploration over programs x inputs with a differential oracle taken from the manual.",
+         "DESIGN.md section 5 C20 and cxxgen/README.md"),
 }
-built = [i for i in ids if i in T and os.path.exists(os.path.join(ROOT, "props", i + ".cc")) or os.path.exists(os.path.join(ROOT, "props", i + "_run.py"))]
+built = [i for i in ids if i in T and (os.path.exists(os.path.join(ROOT, "props", i + ".cc")) or os.path.exists(os.path.join(ROOT, "props", i + "_run.py")))]
 checks = []
 for i in built:
     tech, text, ref = T[i][:3]
